@@ -61,7 +61,7 @@ func canonHist(r *rng, n int, edges [][2]int, retries []int) []Call {
 		}
 	}
 	for t, x := range retries {
-		if x > 0 {
+		if x != 0 {
 			h = append(h, Call{Op: "retries", A: t, R: x})
 		}
 	}
@@ -213,6 +213,12 @@ func randomPlan(r *rng, n int, failPct int) ([][]int, []int) {
 		}
 		plan[t] = scripts[k]
 		retries[t] = scriptRetries[k]
+	}
+	if r.chance(1, 12) {
+		// a negative number of retries is "no retries": the single-attempt scripts stay what the task does
+		if t := r.intn(n); retries[t] == 0 {
+			retries[t] = -1 - r.intn(3)
+		}
 	}
 	return plan, retries
 }
@@ -599,6 +605,9 @@ func init() {
 					if r.chance(1, 3) {
 						retries[t] = 1 + r.intn(2) // retries configured whatever the outcome plan: failing attempts re-enter
 					}
+				}
+				if r.chance(1, 10) {
+					retries[r.intn(n)] = -1 - r.intn(3) // a negative count is "no retries": the task still runs once
 				}
 				hist = canonHist(r, n, edges, retries)
 				// re-add some known tasks at the end or in the middle
